@@ -112,6 +112,10 @@ structure Param where
   name : String
   cst : PCst
   ty : Ty
+  /-- the bound names of a range / slice parameter (`r[a .. b] : range`, `s[f .. t] : int`):
+  `param_new_range_dim` makes each a `var int` of the function's table (C: VAR whatever the
+  parameter's own constness — they are assignable: known finding) -/
+  bnames : List (Ln × String)
 
 inductive Rule
   | undefId | undefAttr | attrNonRecord | undefEnumItem | enumOnNonEnum
@@ -122,6 +126,7 @@ inductive Rule
   | condNotBool | whileNotBool | condBranches | branchArrays | branchFuncs | branchRanges | branchSlices
   | tupleForm | tupleDerefDims | tupleDerefType | tupleIndex | tupleIndexProper
   | arrayShape | rangeFrom | rangeTo | sliceDims | pipeNotFunc
+  | funcNoName | emptyMainUnit
   | returnType
   | matchNotEnum | matchExprNotEnum | matchGuardEnum | matchGuardItem | matchGuardNotEnum
   | matchGuardDiffers | matchMissing
@@ -177,6 +182,8 @@ inductive Expr
   | slice (ln : Ln) (a : Expr) (bounds : ExprList)
   /-- `l |> f(args)` -/
   | pipe (ln : Ln) (l : Expr) (f : Expr) (args : ExprList)
+  /-- `if let (En::it = e) t else f` (item guard; `gln` is the guard's line) -/
+  | ifLet (ln gln : Ln) (en it : String) (e t f : Expr)
 inductive ExprList
   | nil
   | cons (e : Expr) (rest : ExprList)
@@ -225,6 +232,7 @@ def Expr.ln : Expr → Ln
   | .ass l _ _ | .while_ l _ _ | .forIn l _ _ _ | .call l _ _ | .seq l _ | .attr l _ _
   | .match_ l _ _ | .array l _ _ _ | .deref l _ _ | .listcomp l _ _ _ _ => l
   | .tuple l _ _ | .proj l _ _ _ | .range l _ | .slice l _ _ | .pipe l _ _ _ => l
+  | .ifLet l _ _ _ _ _ _ => l
   | .funcLit _ => 0
   | .sub _ => 0
 
@@ -806,11 +814,20 @@ def paramTys : List Param → TyList
 
 def Sig.entry (s : Sig) : Entry := .func (paramTys s.ps) s.rc s.r
 
+/-- `symtab_add_param_from_range_list` -/
+def addBounds (Γ : Env) : List (Ln × String) → Except Diag Env
+  | [] => .ok Γ
+  | (ln, x) :: r => do
+    let Γ' ← Γ.add ln x (.param .var .int)
+    addBounds Γ' r
+
 /-- `symtab_add_param_from_param_list` -/
 def addParams (Γ : Env) : List Param → Except Diag Env
   | [] => .ok Γ
   | p :: r => do
-    let Γ' ← Γ.add p.ln p.name (.param p.cst p.ty)
+    -- `symtab_add_param_from_basic_param`: a parameter without a name is not entered
+    let Γ1 ← (if p.name = "" then .ok Γ else Γ.add p.ln p.name (.param p.cst p.ty))
+    let Γ' ← addBounds Γ1 p.bnames
     addParams Γ' r
 
 def resolveParams (Γ : Env) : List Param → Except Diag (List Param)
@@ -840,12 +857,17 @@ def funcEnv (Γ : Env) (name : String) (s : Sig) : Env :=
   | .ok Γf => Γf
   | .error _ => Γ.push
 
+/-- `symtab_add_func_from_func`: a function ITEM (top level or in a block) needs a name
+(0b116cb: the NULL name used to be hashed) -/
+def addFunc (Γ : Env) (ln : Ln) (name : String) (e : Entry) : Except Diag Env :=
+  if name = "" then .error ⟨ln, .funcNoName⟩ else Γ.add ln name e
+
 /-- first loop of `seq_list_check_type` over a run of functions: add to the enclosing table
 (duplicate → error at the function), check the declaration -/
 def declFuncs (Γ : Env) : FuncList → Except Diag (Env × List Sig)
   | .nil => .ok (Γ, [])
   | .cons f rest => do
-    let Γ1 ← Γ.add f.ln f.name (.func .nil .dflt .int)
+    let Γ1 ← addFunc Γ f.ln f.name (.func .nil .dflt .int)
     let s ← declFunc Γ1 f.name f.params f.rc f.rty
     let Γ2 ← Γ.add f.ln f.name s.entry
     let (Γ3, ss) ← declFuncs Γ2 rest
@@ -920,6 +942,13 @@ def exhaustiveM (Γ : Env) (en : String) (gs : GuardList) (m : Marks) : Bool × 
 def runMatches (Γ : Env) : List (String × GuardList) → Marks → Marks
   | [], m => m
   | (en, gs) :: rest, m => runMatches Γ rest (exhaustiveM Γ en gs m).2
+
+/-- `expr_match_guard_item_check_type`: the guard `En::it` resolves (match guards, if-let) -/
+def guardItemPre (Γ : Env) (ln : Ln) (en it : String) : Except Diag Unit :=
+  match Γ.lookup en with
+  | none => .error ⟨ln, .matchGuardEnum⟩
+  | some .enum => if Γ.hasItem en it then .ok () else .error ⟨ln, .matchGuardItem⟩
+  | some _ => .error ⟨ln, .matchGuardNotEnum⟩
 
 /-! ## the checker -/
 
@@ -1123,6 +1152,20 @@ def tc (Γ : Env) : Expr → Except Diag Comb
         (pipeCmp ps.toList (l.ln, cl) cs).toExcept ⟨ln, .callMismatch⟩
         pure ⟨.val r, rc.toCst⟩
     | _ => .error ⟨ln, .pipeNotFunc⟩
+  | .ifLet ln gln en it e t f => do
+    -- `iflet_check_type` (item guard), then `expr_comb_cmp_and_set` on the two branches
+    let ce ← tc Γ e
+    match ce.ct with
+    | .val (.enum en') =>
+      guardItemPre Γ gln en it
+      let ct ← tc Γ t
+      let cf ← tc Γ f
+      if en' == en then
+        match combCmp ct.ct cf.ct with
+        | .ok t' => pure ⟨t', .temp⟩
+        | .error r => .error ⟨ln, r⟩
+      else .error ⟨ln, .matchGuardDiffers⟩
+    | _ => .error ⟨e.ln, .matchNotEnum⟩
   | .listcomp ln e qs rc rty => do
     let Γq ← tcQuals Γ.push qs
     let ce ← tc Γq e
@@ -1314,9 +1357,16 @@ def globalEnv (ds : List Decl) : Except Diag Env := do
   let recs ← checkDecls Γ1 ds
   pure { Γ1 with records := recs }
 
+/-- `main_check_type`: a main unit of declarations only has nothing to compile to (bad4904:
+the NULL list used to be walked); the diagnostic is at line 1 -/
+def nonEmptyUnit : FuncList → Except Diag Unit
+  | .nil => .error ⟨1, .emptyMainUnit⟩
+  | .cons _ _ => .ok ()
+
 /-- `never_check_type` for the main module: the first diagnostic, or `ok` -/
 def check (p : Prog) : Except Diag Unit := do
   let Γ ← globalEnv p.decls
+  nonEmptyUnit p.funcs
   let (Γ', ss) ← declFuncs Γ p.funcs
   tcBodies Γ' p.funcs ss
 
